@@ -58,6 +58,21 @@ def load_known(prop: str) -> List[dict]:
     return out
 
 
+def attribute_problems(known: List[dict], problems: List[str]) -> Optional[List[dict]]:
+    """the listed findings that together explain EVERY difference observed on a path (each difference must have the shape of
+    one listed finding), or None if some difference has no such explanation -- then the path is a fresh violation"""
+    if not problems:
+        return None
+    hit = []
+    for pr_ in problems:
+        k = next((k for k in known if all(x in pr_ for x in k.get("problem_contains", ["\0"]))), None)
+        if k is None:
+            return None
+        if k not in hit:
+            hit.append(k)
+    return hit
+
+
 def write_replay(prop: str, n: int, payload: dict) -> str:
     os.makedirs(REPLAY_DIR, exist_ok=True)
     path = os.path.join(REPLAY_DIR, f"{prop}-{n}.json")
